@@ -279,6 +279,8 @@ class RepoClass:
         if self._bases is None:
             bs = []
             for b in self.node.bases:
+                if isinstance(b, ast.Subscript):      # Generic[...] parameterisation: DaskTaskList[_R] -> DaskTaskList
+                    b = b.value
                 try:
                     v = interp.eval_in_module(self.module, b)
                 except Unsupported:
@@ -545,6 +547,7 @@ class Interp:
         self.trace_calls = []
         self.call_log = []            # (callee key, bound args, result) of modular calls on the current path
         self.loop_stack = []          # generic-iteration frames of summarised loops (loops.py)
+        self.current_env = None
         self.in_raise_branch = 0
 
     # -- modules -----------------------------------------------------------
@@ -1019,6 +1022,7 @@ class Interp:
 
     def exec_stmt(self, st, env):
         self.lineno = getattr(st, "lineno", self.lineno)
+        self.current_env = env
         m = getattr(self, "s_" + type(st).__name__, None)
         if m is None:
             raise Unsupported(f"statement {type(st).__name__} at line {st.lineno}")
@@ -1478,6 +1482,11 @@ class Interp:
                 return not self.truth(v)
             return not self.truth(v)
         if isinstance(n.op, ast.USub):
+            m = self._obj_method(v, "__neg__")
+            if m is not None:
+                return self.call(m, [], {})
+            if getattr(v, "_pyvc_native", False) and hasattr(type(v), "__neg__"):
+                return -v
             return self.binop("-", 0, v) if not isinstance(v, complex) else -v
         if isinstance(n.op, ast.UAdd):
             return v
@@ -1487,7 +1496,42 @@ class Interp:
             return ~v
         raise Unsupported("unary op")
 
+    _DUNDER = {"+": "add", "-": "sub", "*": "mul", "/": "truediv", "//": "floordiv", "%": "mod", "**": "pow",
+               "@": "matmul", "&": "and", "|": "or"}
+    _CMP_DUNDER = {"==": ("eq", "eq"), "!=": ("ne", "ne"), "<": ("lt", "gt"), "<=": ("le", "ge"), ">": ("gt", "lt"),
+                   ">=": ("ge", "le")}
+
+    def _obj_method(self, o, name):
+        if isinstance(o, Obj) and isinstance(o.cls, RepoClass):
+            m = o.cls.lookup(self, name)
+            if m is not None:
+                if isinstance(m, RepoFunc):
+                    return BoundMethod(m, o)
+                return lambda *a: self.call(m, [o] + list(a), {})
+        return None
+
     def binop(self, op, a, b):
+        if isinstance(a, Obj) or isinstance(b, Obj):
+            d = self._DUNDER.get(op)
+            if d:
+                m = self._obj_method(a, f"__{d}__")
+                if m is not None:
+                    r = self.call(m, [b], {})
+                    if r is not NotImplemented:
+                        return r
+                m = self._obj_method(b, f"__r{d}__")
+                if m is not None:
+                    r = self.call(m, [a], {})
+                    if r is not NotImplemented:
+                        return r
+        for x, y, refl in ((a, b, False), (b, a, True)):
+            if getattr(x, "_pyvc_native", False) and not isinstance(x, type):
+                d = self._DUNDER.get(op)
+                meth = getattr(type(x), f"__{'r' if refl else ''}{d}__", None) if d else None
+                if meth is not None:
+                    r = meth(x, y)
+                    if r is not NotImplemented:
+                        return r
         if isinstance(a, (SArr, A.MaskedSel)) or isinstance(b, (SArr, A.MaskedSel)):
             if op == "@":
                 mm = self.stubs.get("numpy.matmul")
@@ -1495,8 +1539,6 @@ class Interp:
             return A.pointwise(op, a, b)
         if is_num(a) and is_num(b) and op in ("&", "|"):
             return V.sand(a, b) if op == "&" else V.sor(a, b)
-        if getattr(a, "_pyvc_native", False) and op == "*":
-            return a * b
         if is_num(a) and is_num(b):
             if self.safety and not self.spec and op in ("/", "//", "%") and isinstance(b, Sym):
                 self.path.oblige(f"safety.div@L{self.lineno}", V.compare("!=", b, 0), {"line": self.lineno})
@@ -1534,6 +1576,27 @@ class Interp:
         if op in ("in", "not in"):
             r = self.contains(b, a)
             return r if op == "in" else (V.snot(r) if isinstance(r, Sym) else not r)
+        if op in self._CMP_DUNDER and (isinstance(a, Obj) or isinstance(b, Obj)):
+            d, rd = self._CMP_DUNDER[op]
+            m = self._obj_method(a, f"__{d}__")
+            if m is not None:
+                r = self.call(m, [b], {})
+                if r is not NotImplemented:
+                    return r
+            m = self._obj_method(b, f"__{rd}__")
+            if m is not None:
+                r = self.call(m, [a], {})
+                if r is not NotImplemented:
+                    return r
+        if op in self._CMP_DUNDER:
+            for x, y, refl in ((a, b, False), (b, a, True)):
+                if getattr(x, "_pyvc_native", False) and not isinstance(x, type):
+                    d, rd = self._CMP_DUNDER[op]
+                    meth = getattr(type(x), f"__{rd if refl else d}__", None)
+                    if meth is not None and meth is not object.__eq__ and meth is not object.__ne__:
+                        r = meth(x, y)
+                        if r is not NotImplemented:
+                            return r
         if isinstance(a, (SArr, A.MaskedSel)) or isinstance(b, (SArr, A.MaskedSel)):
             return A.pointwise(op, a, b)
         if is_num(a) and is_num(b):
